@@ -47,7 +47,7 @@ Section Ledger.
       apply idx_is_spec. exact Hb. }
     assert (Hmf : files w' (mf_path r) = Some (new_manifest r (per_root roots D i r))).
     { unfold w', pl, M. rewrite (files_after_mf w roots D flt HD HM i r Hn).
-      destruct (per_root roots D i r) eqn:E; [contradiction|]. simpl. rewrite orb_true_r. reflexivity. }
+      unfold should_write. destruct (per_root roots D i r) eqn:E; [contradiction|]. simpl. rewrite orb_true_r. reflexivity. }
     destruct (join_rel_of roots d i r Hb Hn) as (Hj & Hs & Ht); [apply HD; exact Hd|].
     unfold root_managed, read_manifest, chosen_manifest. rewrite Hmf. unfold new_manifest, manifest_usable.
     rewrite N.eqb_refl, str_eqb_refl. cbn [andb]. apply in_map_iff.
@@ -65,9 +65,8 @@ Section Ledger.
     intros Hn Hch Hin.
     assert (Hmf : files w' (mf_path r) = Some (new_manifest r (per_root roots D i r))).
     { pose proof (files_after_mf w roots D flt HD HM i r Hn) as E. fold M in E. fold pl in E. fold w' in E.
-      destruct (exists_at (files w) (mf_path r) || negb (is_nil (per_root roots D i r)) || root_had_changes roots pl i) eqn:C;
-        [exact E|].
-      exfalso. apply Hch. rewrite E. apply orb_false_iff in C as [C _]. apply orb_false_iff in C as [C _].
+      destruct (should_write (files w) roots D pl i r) eqn:C; [exact E|]. unfold should_write in C.
+      exfalso. apply Hch. rewrite E. apply orb_false_iff in C as [C _]. apply orb_false_iff in C as [C _]. apply orb_false_iff in C as [C _].
       unfold exists_at in C. destruct (files w (mf_path r)); [discriminate|reflexivity]. }
     unfold root_managed, read_manifest, chosen_manifest in Hin. rewrite Hmf in Hin.
     unfold new_manifest, manifest_usable in Hin. rewrite N.eqb_refl, str_eqb_refl in Hin. cbn [andb] in Hin.
